@@ -134,7 +134,7 @@ func (intr *treeInterpreter) Execute(node ASTNode, value interface{}) (interface
 				reflectFlat := []interface{}{}
 				v := reflect.ValueOf(element)
 				for i := 0; i < v.Len(); i++ {
-					reflectFlat = append(reflectFlat, v.Index(i).Interface())
+					reflectFlat = append(reflectFlat, valueOrNil(v.Index(i)))
 				}
 				flattened = append(flattened, reflectFlat...)
 			} else {
@@ -164,7 +164,7 @@ func (intr *treeInterpreter) Execute(node ASTNode, value interface{}) (interface
 			}
 			if index < rv.Len() && index >= 0 {
 				v := rv.Index(index)
-				return v.Interface(), nil
+				return valueOrNil(v), nil
 			}
 		}
 		return nil, nil
@@ -314,6 +314,15 @@ func (intr *treeInterpreter) Execute(node ASTNode, value interface{}) (interface
 	return nil, errors.New("Unknown AST node: " + node.nodeType.String())
 }
 
+// valueOrNil returns the Go value held by v, with a nil pointer turned into
+// an untyped nil so that it behaves as JSON null everywhere.
+func valueOrNil(v reflect.Value) interface{} {
+	if v.Kind() == reflect.Ptr && v.IsNil() {
+		return nil
+	}
+	return v.Interface()
+}
+
 func (intr *treeInterpreter) fieldFromStruct(key string, value interface{}) (interface{}, error) {
 	rv := reflect.ValueOf(value)
 	first, n := utf8.DecodeRuneInString(key)
@@ -323,7 +332,7 @@ func (intr *treeInterpreter) fieldFromStruct(key string, value interface{}) (int
 		if !v.IsValid() {
 			return nil, nil
 		}
-		return v.Interface(), nil
+		return valueOrNil(v), nil
 	} else if rv.Kind() == reflect.Ptr {
 		// Handle multiple levels of indirection?
 		if rv.IsNil() {
@@ -334,7 +343,7 @@ func (intr *treeInterpreter) fieldFromStruct(key string, value interface{}) (int
 		if !v.IsValid() {
 			return nil, nil
 		}
-		return v.Interface(), nil
+		return valueOrNil(v), nil
 	}
 	return nil, nil
 }
@@ -343,15 +352,15 @@ func (intr *treeInterpreter) flattenWithReflection(value interface{}) (interface
 	v := reflect.ValueOf(value)
 	flattened := []interface{}{}
 	for i := 0; i < v.Len(); i++ {
-		element := v.Index(i).Interface()
-		if reflect.TypeOf(element).Kind() == reflect.Slice {
+		element := valueOrNil(v.Index(i))
+		if isSliceType(element) {
 			// Then insert the contents of the element
 			// slice into the flattened slice,
 			// i.e flattened = append(flattened, mySlice...)
 			elementV := reflect.ValueOf(element)
 			for j := 0; j < elementV.Len(); j++ {
 				flattened = append(
-					flattened, elementV.Index(j).Interface())
+					flattened, valueOrNil(elementV.Index(j)))
 			}
 		} else {
 			flattened = append(flattened, element)
@@ -372,7 +381,7 @@ func (intr *treeInterpreter) sliceWithReflection(node ASTNode, value interface{}
 	}
 	final := []interface{}{}
 	for i := 0; i < v.Len(); i++ {
-		element := v.Index(i).Interface()
+		element := valueOrNil(v.Index(i))
 		final = append(final, element)
 	}
 	return slice(final, sliceParams)
@@ -383,7 +392,7 @@ func (intr *treeInterpreter) filterProjectionWithReflection(node ASTNode, value 
 	collected := []interface{}{}
 	v := reflect.ValueOf(value)
 	for i := 0; i < v.Len(); i++ {
-		element := v.Index(i).Interface()
+		element := valueOrNil(v.Index(i))
 		result, err := intr.Execute(compareNode, element)
 		if err != nil {
 			return nil, err
@@ -405,7 +414,7 @@ func (intr *treeInterpreter) projectWithReflection(node ASTNode, value interface
 	collected := []interface{}{}
 	v := reflect.ValueOf(value)
 	for i := 0; i < v.Len(); i++ {
-		element := v.Index(i).Interface()
+		element := valueOrNil(v.Index(i))
 		result, err := intr.Execute(node.children[1], element)
 		if err != nil {
 			return nil, err
